@@ -55,7 +55,8 @@ def run_one(sc):
     import onl.netdev.red_port as red_mod
 
     cfg = sc["cfg"]
-    env = Environment()
+    t0 = sc.get("t0", 0)          # the environment's clock starts at t0; instants are recorded relative to it
+    env = Environment(t0) if t0 else Environment()
     rec = netlib.Recorder(env)
     K = cfg["K"]
     rate = 0 if K == 0 else 8.0 / K
@@ -93,8 +94,8 @@ def run_one(sc):
     class Sink:
         def put(self, pkt):
             i = pkt.packet_id
-            st = pkt.perhop_time.get(elid, -1) if isinstance(pkt.perhop_time, dict) else -1
-            rec.ev.append(dict(base, e="D", t=ex(env.now), id=i, sz=pkt.size, stamp=ex(st), **state()))
+            st = pkt.perhop_time.get(elid) if isinstance(pkt.perhop_time, dict) else None
+            rec.ev.append(dict(base, e="D", t=ex(env.now - t0), id=i, sz=pkt.size, stamp=ex(st - t0) if st is not None else -1, **state()))
             notify[0]()
 
     # "noout": the port is the last element of the path; 1 = out is set to None, 2 = out is never assigned at all.
@@ -111,7 +112,7 @@ def run_one(sc):
 
     def on_arrival(i, a, pkt):
         u = draws.used or (-1, 1)
-        rec.ev.append(dict(base, e="A", t=ex(env.now), id=i + 1, sz=a["sz"], un=u[0], ud=u[1], **state()))
+        rec.ev.append(dict(base, e="A", t=ex(env.now - t0), id=i + 1, sz=a["sz"], un=u[0], ud=u[1], **state()))
 
     mon = sc.get("mon")
     incl = 0
@@ -125,13 +126,13 @@ def run_one(sc):
             m = pm[0]
             if m is not None and len(m.sizes) > seen[0]:
                 seen[0] = len(m.sizes)
-                rec.ev.append(dict(base, e="S", t=ex(env.now), x=ex(m.sizes[-1]), y=ex(m.sizes_byte[-1]), **state()))
+                rec.ev.append(dict(base, e="S", t=ex(env.now - t0), x=ex(m.sizes[-1]), y=ex(m.sizes_byte[-1]), **state()))
             return gaps.pop(0) if gaps else float("inf")
 
         pm[0] = PortMonitor(env, port, dist, pkt_in_service_included=bool(incl))
         env.process(pm[0].run())
 
-    notify[0] = netlib.injector(env, rec, sc["arr"], make_packet, port, on_arrival)
+    notify[0] = netlib.injector(env, rec, sc["arr"], make_packet, port, on_arrival, origin=t0)
     ok = netlib.run_env(env, rec)
     for e in rec.ev:
         if e["e"] == "X":
@@ -139,7 +140,7 @@ def run_one(sc):
             for k, v in base.items():
                 e.setdefault(k, v)
     if ok:
-        rec.ev.append(dict(base, e="Q", t=ex(env.now), **state()))
+        rec.ev.append(dict(base, e="Q", t=ex(env.now - t0), **state()))
     return {"cfg": cfg, "incl": incl, "noout": 1 if sc.get("noout") else 0, "ev": rec.ev}
 
 
